@@ -70,6 +70,39 @@ func c03EvalOrder(e *Env) {
 		entries = append(entries, "'"+n+"': "+fn+"()")
 		hashEntries = append(hashEntries, "'"+n+"': "+fn+"()")
 	}
+	// constructs that name the same thing twice: which one wins is fixed (the later one), not left to a map
+	dups := map[string]string{
+		"from-duplicate-alias":   "{% from 'lib' import a as f, b as f, c as f %}{{ f() }}",
+		"from-duplicate-alias-2": "{% from 'lib' import c as f, a as g, b as f, a as f %}{{ f() }}{{ g() }}",
+		"from-alias-vs-plain":    "{% from 'lib' import a, b as a %}{{ a() }}|{% from 'lib' import b as c, c %}{{ c() }}",
+		"import-twice":           "{% import 'lib' as m %}{% import 'lib2' as m %}{{ m.a() }}",
+		"macro-twice":            "{% macro z() %}1{% endmacro %}{% macro z() %}2{% endmacro %}{{ z() }}{{ _self.z() }}",
+		"block-in-include-twice": "{% include 'blk' %}{% include 'blk' %}",
+		"with-duplicate-key":     "{% include 'p2' with {'k': 1, 'k': 2, 'j': 3, 'k': 4} %}",
+		"set-twice-in-loop":      "{% for i in [1, 2, 3] %}{% set q = i %}{% set q = q * 2 %}{% endfor %}{{ q }}",
+	}
+	libs := map[string]string{"lib": "{% macro a() %}A{% endmacro %}{% macro b() %}B{% endmacro %}{% macro c() %}C{% endmacro %}", "lib2": "{% macro a() %}A2{% endmacro %}", "blk": "{% block x %}X{% endblock %}", "p2": "[{{ k }}{{ j }}]", "p": "."}
+	for _, name := range sortedKeys(dups) {
+		first := ""
+		for rep := 0; rep < 40 && !r.Full(); rep++ {
+			tpls := map[string]string{"main": dups[name]}
+			for k, v := range libs {
+				tpls[k] = v
+			}
+			im := runImpl(&Case{Templates: tpls, Main: "main", Ctx: map[string]any{}, FailAt: -1})
+			got := im.Class + "|" + im.Out
+			r.Seen(fmt.Sprintf("dup:%s:%d", name, rep), true)
+			if rep == 0 {
+				first = got
+			} else if got != first {
+				if r.Violate(Violation{Key: "nondeterministic-output", What: fmt.Sprintf("%s: %q renders %q on render %d and %q on the first render", name, dups[name], got, rep, first),
+					Broken: "theorem C03_render_deterministic (implementation-only oracle: repeated renders)", Replay: map[string]any{"kind": "render", "templates": tpls, "main": "main", "outs": []string{first, got}}}) {
+					return
+				}
+				break
+			}
+		}
+	}
 	forms := map[string]string{
 		"include-with":      "{% include 'p' with {" + strings.Join(entries, ", ") + "} %}",
 		"include-with-only": "{% include 'p' with {" + strings.Join(entries, ", ") + "} only %}",
